@@ -9,6 +9,7 @@ record" is decided as a full-state diff.
 from mc import env
 from mc import explore
 from mc.report import Report, exc_sig
+from mc.canon import canon
 
 import copy
 import uuid as _uuid
@@ -32,6 +33,7 @@ PATCHES = {
     "callsign": {"callsign": "x"},
     "dmr_id": {"dmr_id": 7},
     "custom": {"custom": 1},
+    "custom2": {"custom": 2},  # a *different* value for an already stored dynamic attribute
     "out": {"address_out": OUT},
     "two": {"callsign": "x", "p2p_is_registered": True},
 }
@@ -85,6 +87,8 @@ class StorageSystem(explore.System):
             for key in ATTR_KEYS:
                 evs.append(("attr_get", k, key))
                 evs.append(("attr_set", k, key, 1 if key == "custom" else True))
+                if key == "custom":
+                    evs.append(("attr_set", k, key, 2))
                 evs.append(("delete_attr", k, key))
         evs += [("match_attr", "callsign", "x"), ("match_attr", "dmr_id", 7), ("match_attr", "callsign", "")]
         for ip in ("10.0.0.1", "10.0.0.2", "10.9.9.9"):
@@ -306,13 +310,15 @@ class StorageSystem(explore.System):
         return repr(ret)
 
     def key(self):
-        # ids are excluded (fresh by construction); records are identified by creation index
+        # model state (records identified by creation index) + the *complete* structural state of the real storage
+        # object: hidden implementation state (caches, indexes) must never be merged away by the abstraction
         return (
             tuple(
                 (tuple((f, repr(m[f])) for f in BUILTIN), tuple(sorted((a, repr(v)) for a, v in m["attrs"].items() if v is not None)))
                 for m in self.model
             ),
             tuple(sorted((repr(a), k) for a, k in self.last_choice.items())),
+            repr(canon(self.impl)),
         )
 
 
@@ -352,7 +358,7 @@ def run(only=None):
         ("fixpoint_2addr", make_system([A, C], PATCHES), None),
     ]
     if rep.thorough():
-        runs.append(("fixpoint_3addr", make_system([A, B, C], {k: PATCHES[k] for k in ("none", "callsign", "custom", "two")}), None))
+        runs.append(("fixpoint_3addr", make_system([A, B, C], {k: PATCHES[k] for k in ("none", "callsign", "custom", "custom2", "two")}), None))
         runs.append(("addr_patch_depth5", make_system([A, B], {k: PATCHES[k] for k in ("none", "callsign")}, PATCHES_ADDR), 5))
         runs.append(("all_sequences_depth4_3addr_full", make_system([A, B, C], PATCHES), 4))
     else:
@@ -379,7 +385,7 @@ def replay(doc):
         name = doc["check"]
         cfgs = {
             "fixpoint_2addr": make_system([A, C], PATCHES),
-            "fixpoint_3addr": make_system([A, B, C], {k: PATCHES[k] for k in ("none", "callsign", "custom", "two")}),
+            "fixpoint_3addr": make_system([A, B, C], {k: PATCHES[k] for k in ("none", "callsign", "custom", "custom2", "two")}),
             "addr_patch_depth5": make_system([A, B], {k: PATCHES[k] for k in ("none", "callsign")}, PATCHES_ADDR),
             "addr_patch_depth4": make_system([A, B], {k: PATCHES[k] for k in ("none", "callsign")}, PATCHES_ADDR),
             "all_sequences_depth4_3addr_full": make_system([A, B, C], PATCHES),
